@@ -40,7 +40,7 @@ def check(ctx, src):
     ctx.rule("REPR-OWNER", "no function other than hy-repr writes _quoting or mutates _seen")
     hf = src.hy(REL)
     g = hf.defn("hy-repr")
-    ctx.require(g is not None, "defn hy-repr not found")
+    ctx.need(g is not None, "defn hy-repr not found")
     ctx.functions.add(f"{REL}:hy-repr")
     body = [b for b in g.items[3:]]
     if body and body[0].kind == "str":
@@ -53,9 +53,9 @@ def check(ctx, src):
             for t, v in _setv_targets(st):
                 if t.kind == "list" and v.kind == "expr" and "_registry" in v.syms():
                     printer = t.items[0].val
-    ctx.require(printer is not None, "hy-repr no longer looks its printer up in _registry (anchor vanished)")
+    ctx.need(printer is not None, "hy-repr no longer looks its printer up in _registry (anchor vanished)")
     calls = [n for n in g.walk() if n.kind == "expr" and n.items and n.items[0].is_sym(printer) and n is not None and len(n.items) >= 2]
-    ctx.require(len(calls) >= 1, f"no call of the registered printer `{printer}` found in hy-repr")
+    ctx.need(len(calls) >= 1, f"no call of the registered printer `{printer}` found in hy-repr")
 
     tries = [st for st in body if st.head() == "try"]
     for c in calls:
@@ -105,7 +105,7 @@ def check(ctx, src):
             write_i = i
         if st.head() == "setv" and any(t.is_sym("started-quoting") and v.is_sym("False") for t, v in _setv_targets(st)):
             init_i = i
-    ctx.require(add_i is not None and test_i is not None, "hy-repr no longer tests/adds ids in _seen at top level (anchor vanished)")
+    ctx.need(add_i is not None and test_i is not None, "hy-repr no longer tests/adds ids in _seen at top level (anchor vanished)")
     ctx.check(test_i < add_i < try_i, "REPR-ORDER", f"{REL}|hy-repr|test<add<try",
               "the cycle test must precede `.add _seen`, and both must precede the try", REL, body[add_i].line,
               witness="a self-referential list recurses for ever / an id is added that the finally never sees", detail="test, add, try in order")
@@ -142,7 +142,7 @@ def check(ctx, src):
         ctx.check(init_i is not None and init_i < write_i, "REPR-NEST", f"{REL}|hy-repr|flag-init",
                   "started-quoting is not initialised to False before the conditional write", REL, w.line, detail="initialised False")
     else:
-        ctx.require(False, "hy-repr no longer sets _quoting conditionally at top level (anchor vanished)")
+        ctx.need(False, "hy-repr no longer sets _quoting conditionally at top level (anchor vanished)")
 
     # --- ownership -------------------------------------------------------------
     n_w = 0
